@@ -13,6 +13,8 @@
  * prefill marker.  flags bit0: pass a prev_value / value pointer, bit1: use the alias copy of
  * the key (equal content, different address).
  *
+ * environment: HT_OPLOG=<file> writes every op token to <file> as it is executed (to recover the
+ * sequence when the real code crashes the process).
  * output (stdout): "info ...", "stat <name> <n>", "sig <name>", "viol <at> <key>\t<detail>",
  * "trace <tokens>", "done".  A missing "done" means the process died (sanitizer report). */
 #define _GNU_SOURCE
@@ -22,6 +24,7 @@
 #include <stdio.h>
 #include <stdlib.h>
 #include <string.h>
+#include <unistd.h>
 
 #include "ht.h"
 
@@ -77,6 +80,8 @@ static unsigned char *stale_mark;
 static uint64_t *stale_key;
 
 static struct op *oplog;
+static FILE *oplog_file;
+static int oplog_paths;
 static size_t nlog, caplog;
 static int stop;
 static int verbose;
@@ -604,6 +609,23 @@ static void log_op(char kind, uint32_t idx, unsigned flags)
 	oplog[nlog].idx = idx;
 	oplog[nlog].flags = (uint8_t)flags;
 	nlog++;
+	if (oplog_file != NULL) {
+		/* HT_OPLOG=<file>: the sequence survives a crash of the process.  One token per op for
+		 * linear histories, the whole current path per line for the enumeration. */
+		if (oplog_paths) {
+			size_t j;
+			rewind(oplog_file);
+			if (ftruncate(fileno(oplog_file), 0) != 0) {
+				return;
+			}
+			for (j = 0; j < nlog; ++j) {
+				fprintf(oplog_file, " %c%u:%u", oplog[j].kind, oplog[j].idx, oplog[j].flags);
+			}
+		} else {
+			fprintf(oplog_file, " %c%u:%u", kind, idx, flags);
+		}
+		fflush(oplog_file);
+	}
 }
 
 static int table_changed(void)
@@ -1278,6 +1300,10 @@ int main(int argc, char **argv)
 	printf("info type=%s order=%u table_size=%u add_range=%u hop_range=%u nvals=%u universe=%u%s keys=%u heavy_buckets=%u\n", vt->type, vt->order, T, A, HOPR, vt->nvals,
 	       uni, exh_universe ? "(exhaustive)" : "", NU, nheavy);
 
+	if (getenv("HT_OPLOG") != NULL) {
+		oplog_file = fopen(getenv("HT_OPLOG"), "w");
+		oplog_paths = strcmp(mode, "exh") == 0;
+	}
 	if (strcmp(mode, "exh") == 0 && argc >= 7) {
 		exhaustive((unsigned)atoi(argv[5]), atoi(argv[6]));
 	} else if (strcmp(mode, "rand") == 0 && argc >= 7) {
@@ -1333,6 +1359,9 @@ int main(int argc, char **argv)
 		free(viols[i].trace);
 	}
 	printf("done\n");
+	if (oplog_file != NULL) {
+		fclose(oplog_file);
+	}
 	free(prev);
 	free(cur);
 	free(slot_home);
